@@ -10,7 +10,7 @@ import (
 	"golang.org/x/tools/go/ssa"
 )
 
-func (vc *VC) safety() bool { return vc.fc == nil || !vc.fc.NoSafety }
+func (vc *VC) safety() bool { return vc.fc == nil || (vc.fc.Sweep && !vc.fc.NoSafety) }
 
 func (vc *VC) safetyTags() []string {
 	if vc.fc != nil {
@@ -103,8 +103,7 @@ func (vc *VC) instr(ins ssa.Instruction) {
 		vc.havocTuple(ins)
 		vc.havocAll(true)
 	case *ssa.Send:
-		vc.unmodelledConc("send", ins.Pos())
-		vc.havocAll(true)
+		vc.send(ins)
 	case *ssa.Go:
 		vc.goStmt(ins)
 	case *ssa.Defer:
@@ -248,7 +247,7 @@ func (vc *VC) indexAddr(ins *ssa.IndexAddr) {
 		et = t.Elem()
 		vc.obligeSafety("index", fmt.Sprintf("(and (<= 0 %s) (< %s (sl_len %s)))", i, i, x), ins.Pos())
 		arr = fmt.Sprintf("(sl_arr %s)", x)
-		idx = fmt.Sprintf("(+ (sl_off %s) %s)", x, i)
+		idx = fmt.Sprintf("(idx (sl_off %s) %s)", x, i)
 	case *types.Pointer:
 		at := t.Elem().Underlying().(*types.Array)
 		et = at.Elem()
@@ -327,6 +326,11 @@ func (vc *VC) load(ins *ssa.UnOp) {
 	a := vc.addrOf(p)
 	n := vc.define(ins, vc.loadAddr(a))
 	vc.loadFacts(n, t, a)
+	if g, isGlobal := p.(*ssa.Global); isGlobal && vc.C.NonNil[g.Pkg.Pkg.Path()+"."+g.Name()] {
+		// package-level variable initialised once with a non-nil value and never reassigned (declared "nonnil")
+		vc.assume(fmt.Sprintf("(not (= %s 0))", n))
+		vc.usedContracts["nonnil global "+g.Pkg.Pkg.Path()+"."+g.Name()] = true
+	}
 }
 
 // loadFacts: facts on a value read from the heap (a havoc source).
@@ -1025,30 +1029,34 @@ func (vc *VC) havocAll(ghost bool) {
 }
 
 func (vc *VC) recv(ins *ssa.UnOp) {
-	// channel receive: only through a site clause / primitive contract
+	// channel receive: modelled only through a site clause or the primitive contract of <-ctx.Done()
 	name := "recv"
-	vc.callOrd[name]++
-	ord := vc.callOrd[name]
+	ord := vc.ordinalOf(ins, name)
 	args := map[string]sval{"ch": {term: vc.val(ins.X), typ: ins.X.Type()}}
 	handled := vc.siteClauses(name, ord, "site-requires", args, ins.Pos())
-	// <-ctx.Done() : if the channel comes from (context.Context).Done the primitive contract applies
+	var doneFC *FuncContract
+	var doneCtx sval
 	if c, ok := ins.X.(*ssa.Call); ok && c.Call.IsInvoke() && c.Call.Method.Name() == "Done" {
 		if fc := vc.C.Funcs["context.(Context).Done$recv"]; fc != nil {
-			env := vc.envAt(vc.st, vc.st)
-			env.vars["ctx"] = sval{term: vc.val(c.Call.Value), typ: c.Call.Value.Type()}
-			vc.st = vc.st.derive()
-			vc.st.havocGhst = true
-			vc.st.havocHeap = true
-			vc.st.havocKeys = map[string]bool{vc.allocKey(): true}
-			env2 := vc.envAt(vc.st, vc.st.prev)
-			env2.vars["ctx"] = env.vars["ctx"]
-			for _, e := range fc.Ensures {
-				vc.assume(vc.trBool(e.Expr, env2, e))
-			}
-			handled = true
+			doneFC = fc
+			doneCtx = sval{term: vc.val(c.Call.Value), typ: c.Call.Value.Type()}
+			args["ctx"] = doneCtx
+			vc.usedContracts["context.(Context).Done$recv"] = true
 		}
 	}
-	if !handled {
+	pre := vc.st
+	if handled || doneFC != nil || vc.hasSite(name, ord) {
+		// the goroutine may be suspended: shared ghost state is weakened, its own heap objects are untouched
+		vc.st = vc.st.derive()
+		vc.st.havocGhst = true
+		if doneFC != nil {
+			env := vc.newEnv(vc.st, pre, "context")
+			env.vars["ctx"] = doneCtx
+			for _, e := range doneFC.Ensures {
+				vc.assume(vc.trBool(e.Expr, env, e))
+			}
+		}
+	} else {
 		vc.unmodelledConc("recv", ins.Pos())
 		vc.havocAll(true)
 	}
@@ -1057,7 +1065,36 @@ func (vc *VC) recv(ins *ssa.UnOp) {
 	} else {
 		vc.havocVal(ins)
 	}
-	vc.siteClauses(name, ord, "site-post", args, ins.Pos())
+	vc.siteClausesAt(name, ord, "site-post", args, ins.Pos(), pre, "")
+}
+
+// hasSite: some site clause of the function under verification names this operation.
+func (vc *VC) hasSite(name string, ord int) bool {
+	if vc.fc == nil {
+		return false
+	}
+	for _, c := range vc.fc.Sites {
+		if matchCallee(name, c.Site) && (c.SiteN == 0 || c.SiteN == ord) {
+			return true
+		}
+	}
+	return false
+}
+
+func (vc *VC) send(ins *ssa.Send) {
+	name := "send"
+	ord := vc.ordinalOf(ins, name)
+	args := map[string]sval{"ch": {term: vc.val(ins.Chan), typ: ins.Chan.Type()}}
+	if !vc.hasSite(name, ord) {
+		vc.unmodelledConc("send", ins.Pos())
+		vc.havocAll(true)
+		return
+	}
+	vc.siteClauses(name, ord, "site-requires", args, ins.Pos())
+	pre := vc.st
+	vc.st = vc.st.derive()
+	vc.st.havocGhst = true
+	vc.siteClausesAt(name, ord, "site-post", args, ins.Pos(), pre, "")
 }
 
 func (vc *VC) panicInstr(ins *ssa.Panic) {
